@@ -187,7 +187,7 @@ pub fn shard_run(tier: &str, seed: u64, replay_case: Option<usize>, shard: Shard
     let thorough = tier == "thorough";
     let mut out = ShardOut::default();
     let mut cov = Cov::default();
-    let n_hist = if thorough { 600 } else { 72 };
+    let n_hist = if thorough { 600 } else { 40 };
     let vfs_ok = crate::vfs::register().is_ok();
     let mut vcase = 0usize;
     let prof = GenProfile { min_clients: 2, max_clients: 2, min_ops: 10, max_ops: if thorough { 26 } else { 20 }, valid_add_pct: 75, w_kind: [40, 14, 26, 15, 5], big_payload_pct: 8, ..Default::default() };
@@ -257,7 +257,7 @@ pub fn shard_run(tier: &str, seed: u64, replay_case: Option<usize>, shard: Shard
                     OpKind::AddVersion { parent, pay } | OpKind::Probe { parent, pay } => Req::AddVersion { parent: res(*parent), data: pay.bytes() },
                     OpKind::GetChild { parent } => Req::GetChild { parent: res(*parent) },
                     OpKind::AddSnapshot { vid, pay } => Req::AddSnapshot { vid: res(*vid), data: pay.bytes() },
-                    OpKind::GetSnapshot => Req::GetSnapshot,
+                    OpKind::GetSnapshot | OpKind::Pause => Req::GetSnapshot,
                     OpKind::ResendStale { k, .. } | OpKind::Resend { k } => {
                         if chains[c].is_empty() {
                             Req::GetSnapshot
@@ -408,6 +408,45 @@ pub fn shard_run(tier: &str, seed: u64, replay_case: Option<usize>, shard: Shard
                                         if a != b {
                                             bad = Some(format!("{ctx}: afterwards {} on the server that saw the failure answers {} but a fresh server over the same stored state answers {}", pr.name(), a.short(), b.short()));
                                             break;
+                                        }
+                                    }
+                                    // ... and keeps working like it: a write, a snapshot and reads after them
+                                    if bad.is_none() {
+                                        let latest_of = |sub: &Subject| -> Uuid {
+                                            sub.storage.txn(cid).ok().and_then(|mut t| t.get_client().ok().flatten()).map(|c| c.latest_version_id).unwrap_or(Uuid::nil())
+                                        };
+                                        let (la, lb) = (latest_of(&s), latest_of(&fresh));
+                                        let steps: Vec<(&str, Req, Req)> = vec![
+                                            ("AddVersion(latest)", Req::AddVersion { parent: la, data: b"after-fault".to_vec() }, Req::AddVersion { parent: lb, data: b"after-fault".to_vec() }),
+                                            ("GetChildVersion(previous latest)", Req::GetChild { parent: la }, Req::GetChild { parent: lb }),
+                                        ];
+                                        for (name, ra, rb) in steps {
+                                            let a = s.exec(cid, &ra);
+                                            let b = fresh.exec(cid, &rb);
+                                            let same = match (&a, &b) {
+                                                (Resp::AddOk { urg: u1, .. }, Resp::AddOk { urg: u2, .. }) => u1 == u2,
+                                                (Resp::Found { data: d1, .. }, Resp::Found { data: d2, .. }) => d1 == d2,
+                                                (x, y) => x.outcome() == y.outcome(),
+                                            };
+                                            cov.count("differential_follow_up_probes", 1);
+                                            if !same {
+                                                bad = Some(format!("{ctx}: afterwards {name} on the server that saw the failure answers {} but a fresh server over the same stored state answers {}", a.short(), b.short()));
+                                                break;
+                                            }
+                                        }
+                                        if bad.is_none() {
+                                            let (la, lb) = (latest_of(&s), latest_of(&fresh));
+                                            let a = s.exec(cid, &Req::AddSnapshot { vid: la, data: b"snapshot-after-fault".to_vec() });
+                                            let b = fresh.exec(cid, &Req::AddSnapshot { vid: lb, data: b"snapshot-after-fault".to_vec() });
+                                            let ga = s.exec(cid, &Req::GetSnapshot);
+                                            let gb = fresh.exec(cid, &Req::GetSnapshot);
+                                            let same = a.outcome() == b.outcome() && match (&ga, &gb) {
+                                                (Resp::Snap { vid: v1, data: d1 }, Resp::Snap { vid: v2, data: d2 }) => d1 == d2 && (*v1 == la) == (*v2 == lb),
+                                                (x, y) => x.outcome() == y.outcome(),
+                                            };
+                                            if !same {
+                                                bad = Some(format!("{ctx}: afterwards AddSnapshot/GetSnapshot on the server that saw the failure answer {} / {} but on a fresh server over the same stored state {} / {}", a.short(), ga.short(), b.short(), gb.short()));
+                                            }
                                         }
                                     }
                                 }
